@@ -65,9 +65,11 @@ def leaf_kind(path):
     return 'other'
 
 
-def exempt_broadcast(desc, diff):
-    """broadcasting an array-valued object marks it read-only: flag changes towards read-only only"""
-    if desc['name'] not in sweep.BROADCAST_NAMES:
+def exempt_broadcast(desc, label, diff):
+    """broadcasting an array-valued object marks it read-only: flag changes towards read-only only.
+    Documented broadcasts: broadcast_to / broadcast_into_shape / broadcast, and the derivative handed
+    to with_deriv ("all derivatives are broadcasted to the shape of the object if necessary")."""
+    if not (desc['name'] in sweep.BROADCAST_NAMES or (desc['name'] == 'with_deriv' and label == 'value')):
         return False
     path, before, after = diff
     if path.endswith('.readonly'):
@@ -113,7 +115,7 @@ def worker(chunk):
                 stats['operands'] += 1
                 snap1 = sweep.deep_snapshot(o, Pm)
                 if snap1 != snap0:
-                    diffs = [x for x in sweep.diff_snapshots(snap0, snap1, lab) if not exempt_broadcast(d, x)]
+                    diffs = [x for x in sweep.diff_snapshots(snap0, snap1, lab) if not exempt_broadcast(d, lab, x)]
                     if diffs:
                         out.append((d['id'], 'operand', lab, diffs[:6], ev.ok,
                                     None if ev.ok else ev.exc_family))
@@ -136,6 +138,7 @@ def signature(desc, kind, label, diffs, ok):
             'operand': label if kind == 'constant' else ('recv' if label == 'recv' else 'arg'),
             'changed': '+'.join(sorted(set(leaf_kind(p) for p, _, _ in diffs))),
             'raised': not ok,
+            'recv_ro': bool((desc.get('recv') or {}).get('ro')),
             'alias_self': any(s == ['self'] for _, s in desc['args'])}
 
 
